@@ -337,19 +337,29 @@ func TestVerifC09(t *testing.T) {
 
 	if r.Part == "det" {
 		// exhaustive hop-limit sweep × message type
+		// … × source kind (link-local, the unspecified address, global)
 		for _, typ := range types {
 			for hop := 0; hop <= 255; hop++ {
-				c := &advCase{ID: fmt.Sprintf("hop/%s/%d", typ, hop), Min: 20 * time.Second, Max: 30 * time.Second, Fwd: true, Terminate: true, Seed: time.Duration(hop*131 + len(typ))}
-				h := hop
-				if hop == 0 {
-					h = -1 // advStep.Hop 0 means 255; use -1 for a real 0
+				for _, sk := range []string{"ll", "unspec", "global"} {
+					c := &advCase{ID: fmt.Sprintf("hop/%s/%d/%s", typ, hop, sk), Min: 20 * time.Second, Max: 30 * time.Second, Fwd: true, Terminate: true, Seed: time.Duration(hop*131 + len(typ))}
+					h := hop
+					if hop == 0 {
+						h = -1 // advStep.Hop 0 means 255; use -1 for a real 0
+					}
+					src := fmt.Sprintf("fe80::bad:%x", hop+1)
+					switch sk {
+					case "unspec":
+						src = "::"
+					case "global":
+						src = fmt.Sprintf("2001:db8:bad::%x", hop+1)
+					}
+					c.Steps = []advStep{
+						{At: 4 * time.Second, Kind: "msg", Msg: typ, Src: src, Hop: h},
+						{At: 5 * time.Second, Kind: "rs", Src: "fe80::900d:1"},
+					}
+					c.StopAt = 9 * time.Second
+					run(c)
 				}
-				c.Steps = []advStep{
-					{At: 4 * time.Second, Kind: "msg", Msg: typ, Src: fmt.Sprintf("fe80::bad:%x", hop+1), Hop: h},
-					{At: 5 * time.Second, Kind: "rs", Src: "fe80::900d:1"},
-				}
-				c.StopAt = 7 * time.Second
-				run(c)
 			}
 		}
 		// runs of k consecutive invalid messages, k beyond the retry budget
@@ -396,7 +406,11 @@ func TestVerifC09(t *testing.T) {
 			switch x := rr.Intn(10); {
 			case x < 5:
 				// dropped inside the receive loop: does not reset the time-out budget
-				c.Steps = append(c.Steps, advStep{At: at, Kind: "msg", Msg: types[rr.Intn(4)], Src: fmt.Sprintf("fe80::bad:%x", k+1), Hop: []int{-1, 1, 64, 128, 254}[rr.Intn(5)]})
+				src := fmt.Sprintf("fe80::bad:%x", k+1)
+				if rr.Intn(4) == 0 {
+					src = "::"
+				}
+				c.Steps = append(c.Steps, advStep{At: at, Kind: "msg", Msg: types[rr.Intn(4)], Src: src, Hop: []int{-1, 1, 64, 128, 254}[rr.Intn(5)]})
 			case x < 6:
 				c.Steps = append(c.Steps, advStep{At: at, Kind: "msg", Msg: []string{"ns", "na"}[rr.Intn(2)], Src: fmt.Sprintf("fe80::bad:%x", k+1)})
 				timeouts = 0
